@@ -75,3 +75,7 @@ Proof. split; reflexivity. Qed.
 
 Example tick_cmp_wrap : tick_cmp (wrap (2 ^ 32 + 3)) (wrap (2 ^ 32 - 5)) = Gt /\ wrap (2 ^ 32 + 3) = 3 /\ wrap (2 ^ 32 - 5) = 4294967291.
 Proof. repeat split; reflexivity. Qed.
+
+(* integer widths hard-wired in Tick/*: re-read from the source on every run *)
+Lemma widths_pinned : tick_width = 32 /\ hist_mask_width = 64 /\ mt_window_width = 64.
+Proof. repeat split; reflexivity. Qed.
